@@ -30,6 +30,7 @@ class ScanEvent:
     hierarchy: list = field(default_factory=list)
     model: object = None
     evaluable: object = None
+    deferred: bool = False  # the result was handed to the caller untouched; judge_deferred_scan() completes the event
 
 
 def _normalise_scan_args(ba) -> dict:
@@ -103,6 +104,17 @@ def _wrap_scan():
             raise
         monitors_trace.judge_entry_point(a, "ok", None)
         se = ScanEvent(a, "ok", evaluable=ev)
+        if getattr(HUB, "defer_scan", False) and not a.get("_opaque"):
+            # the workload wants to do something between the call and the first use of its result: the reference scanner
+            # reads the tree NOW (absolute paths, so that a later chdir does not matter), the result stays untouched
+            se.deferred = True
+            try:
+                se.model = rscan.model(os.path.abspath(os.path.normpath(str(a["root_path"]))), os.path.abspath(os.path.normpath(str(a["module_path"]))), a["_globs"], a["_regexes"])
+            except Exception as e:  # noqa: BLE001
+                HUB.acc.count("scan_model_errors")
+                HUB.acc.hist("scan_model_error", f"{type(e).__name__}: {e}"[:200])
+            HUB.scan_events.append(se)
+            return ev
         se.state = graph_state(ev)
         if se.state is not None:
             se.nodes, se.imps = truth_from_state(se.state)
@@ -140,6 +152,36 @@ def _judge_scan(se: ScanEvent) -> None:
     HUB.acc.count("scans_judged")
     HUB.acc.count("scan_statements_checked", len(m.statements))
     HUB.acc.count("scan_required_edge_groups", len(ex.required_groups))
+
+
+def judge_deferred_scan(se: ScanEvent, owner: str, case=None) -> bool:
+    """Second half of a scan whose result was left untouched (HUB.defer_scan): the result is used for the first time now -
+    through the public accessor first - and compared with what the reference scanner read at the time of the call."""
+    ev = se.evaluable
+    saved = HUB.case
+    if case is not None:
+        HUB.case = case
+    try:
+        try:
+            with step_budget(SCAN_BUDGET):
+                list(ev.modules)
+        except Exception as e:  # noqa: BLE001
+            HUB.violation(owner, f"scan-result-unusable-at-first-use:{type(e).__name__}", f"the architecture returned by get_evaluable_architecture raised {type(e).__name__}: {e} when it was first used", {"args": _plain_args(se.args)})
+            return False
+        se.state = graph_state(ev)
+        if se.state is None or se.model is None:
+            HUB.acc.mark_inconclusive("deferred scan: raw graph or reference model unavailable")
+            return False
+        se.nodes, se.imps = truth_from_state(se.state)
+        se.hierarchy = hierarchy_problems(se.state)
+        a = se.args
+        ex = rscan.expect(se.model, bool(a["exclude_external_libraries"]), a["level_limit"], a["_ext_globs"], a["_ext_regexes"])
+        se.findings = rscan.compare(se.model, ex, set(se.nodes), set(se.imps), bool(a["exclude_external_libraries"]))
+        HUB.acc.count("scans_judged")
+        HUB.acc.count("scans_judged_at_first_use_after_a_change")
+        return True
+    finally:
+        HUB.case = saved
 
 
 def attribute_scan_findings(se: ScanEvent, mapping: dict, case=None, baseline: ScanEvent | None = None) -> int:
